@@ -138,6 +138,12 @@ impl<'a> Ctx<'a> {
 }
 
 pub fn run_case(prop: &str, tapes: &mut Tapes) -> Result<CaseResult, HarnessError> {
+    if prop == "C25" {
+        return crate::faulty::case_c25(tapes);
+    }
+    if prop == "C20" {
+        return crate::introspect::case_c20(tapes);
+    }
     let bias = prop == "C22";
     let w = match build_workload(tapes, bias) {
         Ok(w) => w,
